@@ -609,6 +609,52 @@ def configs(tier):
     return out
 
 
+# =====================================================================================================
+# frame obligations: generating instances never alters the sources (deductive: points-to / effect analysis, pyvc.frames)
+
+PIPELINE = {
+    "kind": "pipeline", "name": "Instantiator.generate_instance", "source": "designspace",
+    "first": {"module": "ufo2ft.instantiator", "name": "Instantiator.from_designspace", "args": ["SRC"]},
+    "then": [{"method": "generate_instance", "args": ["SRC"]}, {"method": "generate_glyph_instance", "args": [None, None]}],
+    "cuts": [],
+}
+# the frame's two explicit exceptions, both in Instantiator.from_designspace itself (the CALLER'S DesignSpaceDocument, not the source fonts):
+FRAME_EXCEPTIONS = {
+    "designspace.loadSourceFonts(openFontFactory())": "documented behaviour of the entry point: source fonts that are not loaded yet are opened and stored in the "
+    "caller's SourceDescriptors (.font); fonts that are already loaded are not touched",
+    "if designspace.findDefault() is None:": "fontTools' findDefault() assigns the document's derived attribute `default` (the site of known finding F18, which is recorded "
+    "for C07; C19 is not in its property list, so it is attributed here by site): benign cache attribute, no source font is touched",
+}
+
+
+def frame_part():
+    """One obligation per mutation site reachable from from_designspace -> generate_instance / generate_glyph_instance: its target is not (reachable
+    from) the sources.  Alarms outside the two documented exceptions are violations (no concrete input: the analysis is static)."""
+    from vcheck import framecheck as fc
+
+    r = fc.run_roots([PIPELINE])[0]
+    akeys = {(a["file"], a["line"], a["what"]): a for a in r["alarms"]}
+    obligations = discharged = 0
+    violations, excepted, samples = [], [], []
+    for s_ in r["sites"]:
+        obligations += 1
+        a = akeys.get((s_["file"], s_["line"], s_["what"]))
+        if a is None:
+            discharged += 1
+            if len(samples) < 3:
+                samples.append({"obligation": f"{PID}.frame.{s_['file'].split('/')[-1]}:{s_['line']} `{s_['what']}` target not reachable from the sources", "touches": s_["touches"]})
+    for a in r["alarms"]:
+        if "Instantiator.from_designspace" in a["func"] and a["code"] in FRAME_EXCEPTIONS:
+            excepted.append({"site": f"{a['file']}:{a['line']}", "code": a["code"], "why": FRAME_EXCEPTIONS[a["code"]]})
+            continue
+        name = f"{PID}.frame.sources-unchanged.{a['file'].split('/')[-1]}:{a['line']}"
+        p = write_replay(name, {"property": PID, "obligation": name, "clause": "frame: from_designspace -> generate_instance / generate_glyph_instance never write to the sources", "case": None, "site": a,
+                                "solver_output": f"points-to analysis: the sources are among the targets of `{a['what']}` at {a['file']}:{a['line']} ({a['code']}) in {a['func']}"})
+        violations.append(f"VIOLATION property={PID} replay={p} obligation={name} no-failing-input-found")
+    return {"obligations": obligations, "discharged": discharged, "excepted": excepted, "violations": violations, "samples": samples,
+            "functions": r.get("functions"), "contexts": r.get("contexts"), "wall_s": r.get("wall_s"), "unknown_calls": r.get("unknown_calls")}
+
+
 @hook(PID)
 def observer(tier, seed):
     from contracts import c19
@@ -664,6 +710,17 @@ def observer(tier, seed):
                         break
     except Exception:  # noqa
         res["checker_errors"].append("C19 harness guard crashed: " + traceback.format_exc()[-600:])
+    # deductive frame part (counts as obligations; its two documented exceptions are listed, not counted as discharged)
+    try:
+        fp = frame_part()
+        res["obligations"] = fp["obligations"] - len(fp["excepted"])
+        res["discharged"] = fp["discharged"]
+        res["violations"] += fp["violations"]
+        res["frame"] = [{k: fp[k] for k in ("obligations", "discharged", "excepted", "samples", "contexts", "wall_s")}]
+        res["assumptions"] += [f"frame exception at {e['site']} `{e['code']}`: {e['why']}" for e in fp["excepted"]]
+        res["trusted"] += ["pyvc.frames points-to / effect analysis (library summaries for fontTools / fontMath / ufoLib2 as in C07)"]
+    except Exception:  # noqa
+        res["checker_errors"].append("C19 frame part crashed: " + traceback.format_exc()[-900:])
     res["explanation"] = (
         "contract-based deductive verification of the clamp functions, location_to_key, Variator.from_masters / instance_at, process_rules_swaps, "
         "collect_info/kerning/glyph_masters, Instantiator.generate_glyph_instance (cache invariant, master / blend, frame), replace_source_layers, "
